@@ -9,7 +9,7 @@
     * feature types = the initial types plus every value of every key containing `_class`, `gbkey`, `_type`;
     * merging two qualifier dictionaries is a key-wise set union with sorted values;
     * GFF3 qualifier filtering drops exactly the reserved BioCantor keys and sorts the values;
-    * GenBank features grouped by locus tag: one group per tag, holding that tag's gene / transcript / CDS
+    * GenBank features grouped by locus tag: one group per tag that has a gene, transcript or CDS feature, holding that tag's gene / transcript / CDS
       features, whatever the order of the records.
 
   Everything is a decidable predicate on (input, observed answer) pairs; `none` = the call raised.
@@ -240,13 +240,17 @@ def dupGene (fs : List Feat) : Bool :=
 def singleChain (fs : List Feat) (t : Str) : Bool :=
   !((uidsOf fs t .transcript).length > 1 && (uidsOf fs t .cds).length > 1)
 
+/-- the features that can make a gene: a tag carried ONLY by features of unknown type yields no group (the parser
+    warns about each of them and has no gene to build — documented since 48a0909) -/
+def knownFeats (fs : List Feat) : List Feat := fs.filter fun f => f.kind != .other
+
 def okGroup (fs : List Feat) (ans : Option (List Group)) : Bool :=
   match ans with
   | none => dupGene fs
   | some gs =>
     !dupGene fs &&
     sortedStrict (gs.map (·.tag)) &&
-    sameSet (gs.map (·.tag)) (fs.map (·.tag)) &&
+    sameSet (gs.map (·.tag)) ((knownFeats fs).map (·.tag)) &&
     gs.all fun g =>
       g.gene == (uidsOf fs g.tag .gene).head? &&
       g.cdss.isPerm (uidsOf fs g.tag .cds) &&
